@@ -48,13 +48,16 @@ AXES = (0, 1, 2)
 AIJ0 = ("I", "generic")
 ANGLE0 = (0.0, 0.3, -2.0, 7.0)
 PAIRS = ("O-RB", "RB-RB")
+# first subsystem = Frame with time-dependent orientation (turntable about the joint axis): the relative rotation is measured
+# against the CURRENT frame orientation (seeded C25-e); lattice kinds with N in {16, 12} only
+PAIR_FRAME = "FR-RB"
 N360_QUICK = (0, 1, -1, 2, -2, 29, -29, 45, -45, 60, -60, 89, -89)
 
 
 def cases(tier, seed):
     out = []
     for N in (16, 12, 360):
-        for pair in PAIRS:
+        for pair in PAIRS + ((PAIR_FRAME,) if N != 360 else ()):
             for aij in AIJ0:
                 for a0 in ANGLE0:
                     for axis in AXES:
@@ -102,9 +105,20 @@ class Scen:
         self.n = self.A_IJ0[:, self.axis].copy()
         self.system = System(t0=J.T0)
         self.rb1 = None
+        self.t_cur = J.T0
+        self.W = None
         if case["pair"] == "RB-RB":
             self.rb1 = J.make_subsystem("RB", seed, 1)
             s1 = self.rb1
+        elif case["pair"] == PAIR_FRAME:
+            from cardillo.discrete import Frame
+
+            A0 = J.generic_rotation(seed, 7)
+            r0 = ab.generic_vec(seed, 8, 3, 0.8)
+            n, rJ, W = self.n.copy(), self.r_OJ0.copy(), 1.3
+            self.W = W
+            s1 = Frame(r_OP=lambda t: rJ + J.rot(n, W * (t - J.T0)) @ (r0 - rJ), A_IB=lambda t: J.rot(n, W * (t - J.T0)) @ A0, name="turntable")
+            self.fr1 = s1
         else:
             s1 = self.system.origin
         if exact:
@@ -112,7 +126,7 @@ class Scen:
         else:
             self.rb2 = J.make_subsystem("RB", seed, 2)
         self.joint = J.make_joint("Revolute", self.axis, s1, self.rb2, r_OJ0=self.r_OJ0.copy(), A_IJ0=self.A_IJ0.copy(), angle0=self.angle0)
-        items = ([self.rb1] if self.rb1 is not None else []) + [self.rb2, self.joint]
+        items = ([self.rb1] if self.rb1 is not None else []) + ([self.fr1] if self.W is not None else []) + [self.rb2, self.joint]
         self.system.add(*items)
         J.assemble(self.system)
         self.q_init, _ = J.raw_q0(self.system)
@@ -130,10 +144,15 @@ class Scen:
         """system coordinates at lattice position r (0 <= r < N): relative rotation 2*pi*r/N; with two
         bodies the first one turns by 2*pi*((5 r) mod N)/N as well"""
         ck = (r, N)
+        if self.W is not None:
+            # the turntable has turned by beta at time T0 + beta / W
+            self.t_cur = J.T0 + (2 * math.pi * ((5 * r) % N) / N) / self.W
         if ck in self._qcache:
             return self._qcache[ck].copy()
         q = self.q_init.copy()
         beta = 0.0
+        if self.W is not None:
+            beta = 2 * math.pi * ((5 * r) % N) / N
         if self.rb1 is not None:
             beta = 2 * math.pi * ((5 * r) % N) / N
             q[self.rb1.my_qDOF] = self._turn(self.rb1, beta)
@@ -152,7 +171,7 @@ class Scen:
         return q
 
     def ask(self, q):
-        return float(self.joint.l(self.system.t0, q[self.joint.qDOF]))
+        return float(self.joint.l(self.t_cur if self.W is not None else self.system.t0, q[self.joint.qDOF]))
 
     def fields(self):
         return (getattr(self.joint, "previous_quadrant", "?"), getattr(self.joint, "n_full_rotations", "?"))
